@@ -21,7 +21,7 @@ structure HState where
   ids : List (String × Nat) := []          -- handle name → object id (latest binding first)
   vals : List (String × VH) := []          -- value machine
   bound : Option Nat := none               -- C07: allowed hash calls since the last hcount (none = unbounded)
-  okSoFar : Bool := true                   -- value machine still defined (no divergence so far)
+  partialTree : Bool := false              -- C12: some backing has been summarised: errors are allowed, wrong data is not
 
 def sha : HashFn := Sha.sha256Pair
 
@@ -144,6 +144,15 @@ def applyVal (s : HState) (name : String) (f : VH → Option Val) : HState × Bo
     match f vh with
     | none => (s, false)
     | some nv => writeBack (s.setV name { vh with val := nv }) name
+
+/-- value-machine side of a mutation plus its verdict.  On a summarised backing (C12) an
+    error is always acceptable and then leaves the value unchanged. -/
+def finishMut (s : HState) (name : String) (impl : List String) (f : VH → Option Val)
+    (verdictOf : List String → Bool → String) : HState × String :=
+  if s.partialTree && impl == ["err"] then (s, "ok")
+  else
+    let (s', okV) := applyVal s name f
+    (s', verdictOf impl okV)
 
 /-- verdict for a mutation: the implementation must succeed exactly when the plain value
     operation is defined -/
@@ -271,8 +280,8 @@ def step (s : HState) (name : String) (args impl : List String) : Except String 
       | .error e => return (s, errClass e, "ok")
       | .ok en =>
         let (s1, m) := applyMut s pid (Mut.set sha po.ty po.node i x en)
-        let (s2, okV) := applyVal s1 h1 fun vh => valSet vh.ty vh.val i x
-        return (s2, m, mutVerdict impl okV)
+        let (s2, vd) := finishMut s1 h1 impl (fun vh => valSet vh.ty vh.val i x) mutVerdict
+        return (s2, m, vd)
   | "setv", h1 :: i :: h2 :: _ =>
     let i ← natTok i
     match s.id? h1, s.id? h2 with
@@ -281,8 +290,8 @@ def step (s : HState) (name : String) (args impl : List String) : Except String 
       let so := s.store[sid]!
       let x := ((s.vh? h2).map (·.val)).getD .none
       let (s1, m) := applyMut s pid (Mut.set sha po.ty po.node i x so.node)
-      let (s2, okV) := applyVal s1 h1 fun vh => valSet vh.ty vh.val i x
-      return (s2, m, mutVerdict impl okV)
+      let (s2, vd) := finishMut s1 h1 impl (fun vh => valSet vh.ty vh.val i x) mutVerdict
+      return (s2, m, vd)
     | _, _ => return (s, "nohandle", "ok")
   | "app", h1 :: rest =>
     let (x, _) ← runP val rest
@@ -295,16 +304,16 @@ def step (s : HState) (name : String) (args impl : List String) : Except String 
       | .error e => return (s, errClass e, "ok")
       | .ok en =>
         let (s1, m) := applyMut s pid (Mut.append sha po.ty po.node x en)
-        let (s2, okV) := applyVal s1 h1 fun vh => valAppend vh.ty vh.val x
-        return (s2, m, mutVerdict impl okV)
+        let (s2, vd) := finishMut s1 h1 impl (fun vh => valAppend vh.ty vh.val x) mutVerdict
+        return (s2, m, vd)
   | "pop", h1 :: _ =>
     match s.id? h1 with
     | none => return (s, "nohandle", "ok")
     | some pid =>
       let po := s.store[pid]!
       let (s1, m) := applyMut s pid (Mut.pop sha po.ty po.node)
-      let (s2, okV) := applyVal s1 h1 fun vh => valPop vh.ty vh.val
-      return (s2, m, mutVerdict impl okV)
+      let (s2, vd) := finishMut s1 h1 impl (fun vh => valPop vh.ty vh.val) mutVerdict
+      return (s2, m, vd)
   | "chg", h1 :: sel :: rest =>
     let sel ← natTok sel
     let (x, _) ← runP val rest
@@ -326,8 +335,8 @@ def step (s : HState) (name : String) (args impl : List String) : Except String 
           let specOk := match x with
             | .none => hasNone && sel == 0
             | _ => (unionOpt hasNone opts sel).isSome
-          let (s2, okV) := applyVal s1 h1 fun _ => if specOk then some (.union sel x) else none
-          return (s2, m, mutVerdict impl okV)
+          let (s2, vd) := finishMut s1 h1 impl (fun _ => if specOk then some (.union sel x) else none) mutVerdict
+          return (s2, m, vd)
       | _ => return (s, "err", "ok")
   | "obs", h1 :: _ =>
     match s.id? h1 with
@@ -338,7 +347,17 @@ def step (s : HState) (name : String) (args impl : List String) : Except String 
       let verdict := match s.vh? h1 with
         | some vh =>
           let sp := specObs vh.ty vh.val
-          if " ".intercalate impl == sp then "ok" else s!"FAIL:view-differs-from-value:spec={sp.take 300}"
+          if " ".intercalate impl == sp then "ok"
+          else if s.partialTree then
+            -- on a summarised backing: the root must still be right; bytes / components may be
+            -- unavailable (error) but never different
+            let rootOk := impl.take 2 == ["ok", hex (htr sha vh.ty vh.val)]
+            let serTok := impl.getD 2 ""
+            let serOk := serTok == "ser-err" || serTok == xhex (serialize vh.ty vh.val)
+            let valOk := serTok == "ser-err" || impl.drop 3 == ["extract-err"] || " ".intercalate (impl.drop 3) == showVal vh.val
+            if impl == ["panic"] then "FAIL:panic"
+            else if rootOk && serOk && valOk then "ok" else s!"FAIL:partial-view-yields-different-data:spec={sp.take 300}"
+          else s!"FAIL:view-differs-from-value:spec={sp.take 300}"
         | none => "ok"
       return (s, m, verdict)
   | "len", h1 :: _ =>
@@ -353,8 +372,8 @@ def step (s : HState) (name : String) (args impl : List String) : Except String 
         | _ => .error .other
       let m := match r with | .ok n => s!"ok {n}" | .error e => errClass e
       let verdict := match s.vh? h1 with
-        | some { val := .seq vs, .. } => if impl == ["ok", toString vs.length] then "ok" else "FAIL:length"
-        | some { val := .bits bs, .. } => if impl == ["ok", toString bs.length] then "ok" else "FAIL:length"
+        | some { val := .seq vs, .. } => if impl == ["ok", toString vs.length] || (s.partialTree && impl == ["err"]) then "ok" else "FAIL:length"
+        | some { val := .bits bs, .. } => if impl == ["ok", toString bs.length] || (s.partialTree && impl == ["err"]) then "ok" else "FAIL:length"
         | _ => "ok"
       return (s, m, verdict)
   | "rd", h1 :: i :: _ =>
@@ -370,7 +389,7 @@ def step (s : HState) (name : String) (args impl : List String) : Except String 
       let verdict := match s.vh? h1 with
         | some vh =>
           match valElem vh.ty vh.val i with
-          | some (_, x) => if " ".intercalate impl == s!"ok {showVal x}" then "ok" else "FAIL:element-read"
+          | some (_, x) => if " ".intercalate impl == s!"ok {showVal x}" || (s.partialTree && impl == ["err"]) then "ok" else "FAIL:element-read"
           | none => if impl == ["err"] then "ok" else "FAIL:out-of-range-read-accepted"
         | none => "ok"
       return (s, m, verdict)
@@ -401,6 +420,18 @@ def step (s : HState) (name : String) (args impl : List String) : Except String 
         let (s2, _) := applyVal s1 h1 fun _ => some (.bytes bs)
         return (s2, "ok", if impl == ["ok"] then "ok" else "FAIL:unmarshal-text")
       | _ => return (s, "err", "ok")
+  | "sum", h1 :: _ :: gs =>
+    match s.id? h1 with
+    | none => return (s, "nohandle", "ok")
+    | some pid =>
+      let po := s.store[pid]!
+      let r : R Node := gs.foldlM (fun n g => summarizeInto sha n (gbits ((g.toNat?).getD 1))) po.node
+      match r with
+      | .error e => return (s, errClass e, if impl == ["panic"] then "FAIL:panic" else "ok")
+      | .ok n' =>
+        let (st', err) := setBacking sha (s.store.size + 1) s.store pid n'
+        let m := match err with | none => "ok" | some e => errClass e
+        return ({ s with store := st', partialTree := true }, m, if impl == ["panic"] then "FAIL:panic" else "ok")
   | "snap", _ => return (s, "ok", if impl == ["ok"] then "ok" else "FAIL:snapshot")
   | "chk", _ => return (s, "ok same", if impl == ["ok", "same"] then "ok" else "FAIL:old-version-changed")
   | "memo", h1 :: _ =>
@@ -437,7 +468,15 @@ def step (s : HState) (name : String) (args impl : List String) : Except String 
       let verdict := match s.vh? h1 with
         | some vh =>
           let sp := specIter vh.ty vh.val
-          if " ".intercalate impl == sp then "ok" else s!"FAIL:iterator-differs-from-indexed-access:spec={sp.take 200}"
+          if " ".intercalate impl == sp then "ok"
+          else if s.partialTree then
+            -- a prefix of the right components followed by an error is acceptable; a wrong component is not
+            let toks := impl
+            let spToks := (sp.splitOn " ").filter (· ≠ "")
+            let isPrefixThenErr := toks.getLast? == some "E" && (toks.dropLast.zip spToks).all (fun (a, b) => a == b) && toks.length - 1 ≤ spToks.length
+            let xOk := toks.any (· == "|X")   -- an element whose getters failed: allowed on partial trees
+            if isPrefixThenErr || xOk then "ok" else s!"FAIL:partial-iterator-yields-different-data:spec={sp.take 200}"
+          else s!"FAIL:iterator-differs-from-indexed-access:spec={sp.take 200}"
         | none => "ok"
       return (s, m, verdict)
   | _, _ => throw s!"bad history op {name}"
